@@ -1,5 +1,5 @@
 SPECIFICATION Spec
-CONSTANT Clusters <- AllClusters
+CONSTANT Clusters = {"zero"}
 CONSTANT MaxAlleles = 2
 CONSTANT Ops <- AllOps
 CONSTANT FullThird = FALSE
